@@ -92,6 +92,13 @@ func (p *pdfObjs) bytes(root int) []byte {
 // write renders the logical document as a one-page PDF and returns the specified fragment
 // texts in execution order.
 func (d *mfDoc) write() (pdf []byte, want []string) {
+	o, _, _ := d.objects()
+	return o.bytes(1), d.wants(0, 0)
+}
+
+// objects: the indirect objects of the document (1 = catalog), the object numbers of the page
+// and of its content stream.
+func (d *mfDoc) objects() (objs *pdfObjs, pageObj, contentObj int) {
 	o := &pdfObjs{}
 	catalog, pages, page := o.reserve(), o.reserve(), o.reserve()
 	// font dictionaries: one text (and, unless direct, one object) per logical font
@@ -170,7 +177,7 @@ func (d *mfDoc) write() (pdf []byte, want []string) {
 	o.set(catalog, fmt.Sprintf("<< /Type /Catalog /Pages %d 0 R >>", pages))
 	o.set(pages, fmt.Sprintf("<< /Type /Pages /Kids [%d 0 R] /Count 1 >>", page))
 	o.set(page, fmt.Sprintf("<< /Type /Page /Parent %d 0 R /MediaBox [0 0 612 792] /Contents %d 0 R /Resources %s >>", pages, cs, resources(d.Scopes[0])))
-	return o.bytes(catalog), d.wants(0, 0)
+	return o, page, cs
 }
 
 // wants: the specified texts of scope k in execution order.
@@ -298,6 +305,55 @@ func multiFontCase(c *hx.Ctx, dir string, idx int, d *mfDoc) {
 	c.Check(key, ok, k, func() string {
 		return fmt.Sprintf("every string decodes by the font dictionary its Tf selects: got %q, specified %q; %s", texts, want, d.describe())
 	})
+	// the same document, as an object table, through the model of the extractor
+	// (Model/FormFonts.lean): ties the model to the public path tabula.Open(f).Fragments().
+	// Every show of these documents has its own position, so de-duplication removes nothing.
+	if x := d.asExtDoc(); x != nil {
+		objs, pres, content := x.opFields()
+		c.Op(fmt.Sprintf("c07.ext %s %s %s %s", objs, pres, content, x.nfcCandidates()), "ok "+textsField(texts))
+	}
+}
+
+// asExtDoc: the written PDF's objects as the object table of op c07.ext (the page's
+// resources and content taken from the page object the writer produced).
+func (d *mfDoc) asExtDoc() *xDoc {
+	o, page, cs := d.objects()
+	x := &xDoc{objs: map[int]*xObj{}}
+	for i, body := range o.bodies {
+		if j := strings.Index(body, "\nstream\n"); j >= 0 && strings.HasSuffix(body, "\nendstream") {
+			dict := body[:j]
+			// the model reads the dictionary text; /Length is not needed by it
+			x.objs[i+1] = &xObj{body: dict, data: []byte(body[j+len("\nstream\n") : len(body)-len("\nendstream")]), stream: true}
+		} else {
+			x.objs[i+1] = &xObj{body: body}
+		}
+	}
+	pb := o.bodies[page-1]
+	j := strings.Index(pb, "/Resources ")
+	if j < 0 || !strings.HasSuffix(pb, " >>") {
+		return nil
+	}
+	x.pageRes = pb[j+len("/Resources ") : len(pb)-len(" >>")]
+	if c := x.objs[cs]; c != nil && c.stream {
+		x.content = c.data
+	} else {
+		return nil
+	}
+	for _, s := range d.Scopes {
+		for _, it := range s.Items {
+			if it.Form == 0 {
+				b, _ := hex.DecodeString(it.Data)
+				x.datas = append(x.datas, b)
+			}
+		}
+	}
+	for _, f := range d.Fonts {
+		if f.TU != "" {
+			p, _ := hex.DecodeString(f.TU)
+			x.progs = append(x.progs, p)
+		}
+	}
+	return x
 }
 
 func replayMultiFont(c *hx.Ctx, k map[string]interface{}) {
